@@ -48,7 +48,9 @@ type Env struct {
 	Plus bool `json:"plus"`
 	AP   bool `json:"ap"`
 	Dos  bool `json:"dos"`
-	Fix  bool `json:"fix"` // probed from the real checker, not chosen
+	Fix  bool `json:"fix"`  // probed from the real checker, not chosen (fixes/F19a.diff)
+	FixC bool `json:"fixc"` // probed: virtualServerRequiresEndpointsUpdate looks at upstream.Backup (fixes/F19c.diff)
+	FixB bool `json:"fixb"` // probed: the EndpointSlice delete handler queues the Service (fixes/F19b.diff)
 }
 
 type SvcSpec struct {
@@ -1237,6 +1239,8 @@ func runCase(c *Case) (obs Obs) {
 		}
 	}()
 	c.Env.Fix = k8s.VerifC15ProbeVsrBackup()
+	c.Env.FixC = k8s.VerifC15ProbeBackupEndpoints()
+	c.Env.FixB = k8s.VerifC15ProbeSliceDelete()
 	w := build(c)
 	var probs []k8s.VerifC15Problem
 	type target struct{ kind, key string }
